@@ -154,6 +154,15 @@ pub const SLOTS: usize = 64;
 const Z: AtomicU64 = AtomicU64::new(0);
 pub static INFLIGHT: [AtomicU64; SLOTS] = [Z; SLOTS];
 pub static INFLIGHT_FD: AtomicU64 = AtomicU64::new(u64::MAX);
+/// fd for the harness's own diagnostics (the original stderr); 2 if not redirected
+pub static DIAG_FD: AtomicU64 = AtomicU64::new(2);
+pub fn diag(msg: &str) {
+    let fd = DIAG_FD.load(Ordering::Relaxed) as libc::c_int;
+    let line = format!("{msg}\n");
+    unsafe {
+        libc::write(fd, line.as_ptr() as *const libc::c_void, line.len());
+    }
+}
 
 extern "C" fn on_fatal(sig: libc::c_int) {
     let fd = INFLIGHT_FD.load(Ordering::Relaxed);
@@ -551,7 +560,7 @@ impl Ctx {
         }));
         if let Some((idx, _case, msg)) = fail.as_ref().filter(|f| f.2.contains("harness:")) {
             // a failure of the machinery itself (external tool, scratch dir, ...): inconclusive
-            eprintln!("[{}] {driver}: HARNESS ERROR at case {idx}: {msg}", self.prop);
+            diag(&format!("[{}] {driver}: HARNESS ERROR at case {idx}: {msg}", self.prop));
             self.harness_errors.push(format!("{driver}#{idx}: {msg}"));
         } else if let Some((idx, case, msg)) = fail {
             // Unknown-key "Known" verdicts never get here; this is a real violation.
@@ -565,7 +574,7 @@ impl Ctx {
             let doc = json!({"property": self.prop, "driver": driver, "seed": self.seed, "tier": self.tier.name(),
                 "index": idx, "message": msg, "case": case});
             let _ = std::fs::write(&path, serde_json::to_vec_pretty(&doc).unwrap());
-            eprintln!("[{}] {driver}: violation at case {idx}: {msg}", self.prop);
+            diag(&format!("[{}] {driver}: violation at case {idx}: {msg}", self.prop));
             self.violations.push(Violation { driver: driver.to_string(), message: msg, replay: path });
         }
     }
@@ -595,7 +604,7 @@ impl Ctx {
         let doc = json!({"property": self.prop, "driver": driver, "seed": self.seed, "tier": self.tier.name(),
             "message": msg, "case": case});
         let _ = std::fs::write(&path, serde_json::to_vec_pretty(&doc).unwrap());
-        eprintln!("[{}] {driver}: violation: {msg}", self.prop);
+        diag(&format!("[{}] {driver}: violation: {msg}", self.prop));
         self.violations.push(Violation { driver: driver.to_string(), message: msg, replay: path });
     }
 
@@ -665,7 +674,7 @@ impl Ctx {
             self.prop, self.tier.name(), self.seed, self.evaluations, distinct, violations.len(), wall
         );
         if !self.harness_errors.is_empty() && violations.is_empty() {
-            eprintln!("[{}] inconclusive: {} harness error(s)", self.prop, self.harness_errors.len());
+            diag(&format!("[{}] inconclusive: {} harness error(s)", self.prop, self.harness_errors.len()));
             return 2;
         }
         if violations.is_empty() {
